@@ -154,6 +154,15 @@ def eval_C07(item):
         res['pred'] += [lab + x for x in preds.pred_C06(ctx, d, st.iobs)] if i == len(steps) - 1 else []
         res['pred'] += [lab + x for x in pred_prune_step(ctx, prev.iobs, st.iobs, st)]
         n_removed += len(prev.iobs['structs']) - len(st.iobs['structs'])
+        # parameter bookkeeping against the model's pruneParam (0 inherits; the record is replaced unless the
+        # effective request is smaller)
+        fb = item['case']['fb']
+        for key, req, conv in (('min_delta', st.op[1], lambda v: impl.to_k(v, fb)), ('min_npix', st.op[2], lambda v: int(v))):
+            before_v = conv(st.extra['params_before'][key])
+            ans = dict(l.split(' ', 1) for l in session.driver().ask('pruneparam %d %d' % (before_v, req)))
+            if 'recorded' in ans and conv(st.extra['params_after'][key]) != int(ans['recorded']):
+                res['corr'].append(lab + 'recorded %s after prune(%s=%d) with %d recorded before: impl %r, model %s'
+                                   % (key, key, req, before_v, conv(st.extra['params_after'][key]), ans['recorded']))
     # the repeated prune must change nothing
     if len(steps) >= 3:
         x, y = steps[-2].iobs, steps[-1].iobs
